@@ -171,4 +171,25 @@ example : InNormalCone (some (0:ℚ)) none (0 + projStepO (1/2) 0 4 (some 0) non
 example : projStepO (1/2 : ℚ) 0 4 (some 0) none = 0 := by norm_num [projStepO]
 example : projStepO (1 : ℚ) 3 1 (some 2) (some 2) = -1 := by norm_num [projStepO]
 
+section
+local instance instRealLikeRatC01 : RealLike ℚ := ⟨id, fun _ => false, fun _ => true⟩
+
+/-- `approxKKT_certifies` on a two-dimensional instance with a one-sided and an equal-bounds row:
+    `x = (0, 3)`, `∇ψ = (4, 1)`, `γ = ½`, `C = [0, ∞) × {2}`: `p = (0, −1)`, the criterion is
+    `‖p/γ + ∇ψ(x) − ∇ψ(x̂)‖∞ = 2` -/
+example : stopCrit_ApproxKKT (fun _ v _ => (v, v))
+      (projStepVO (1/2 : ℚ) [0, 3] [4, 1] [(some 0, none), (some 2, some 2)]) (1/2) [0, 3] [0, 2] []
+      [4, 1] [4, 1] = 2 := by decide +kernel
+
+example : Certified (1/2 : ℚ) 2 [0, 3] [4, 1] [4, 1] [(some 0, none), (some 2, some 2)] :=
+  approxKKT_certifies (fun _ v _ => (v, v)) (1/2) 2 [0, 3] [0, 2] [] [4, 1] [4, 1]
+    [(some 0, none), (some 2, some 2)] (by norm_num)
+    (by intro b hb l u h1 h2
+        simp only [List.mem_cons, List.mem_nil_iff, or_false] at hb
+        rcases hb with rfl | rfl
+        · cases h2
+        · cases h1; cases h2; exact le_refl _)
+    (by decide +kernel)
+end
+
 end Alpaqa.Props.C01
